@@ -77,8 +77,10 @@ def draw_graph(rnd, n=None, types=STRUCTURAL, with_noop=False, with_number=None,
             graph.append(("linear", m, b, s))
         elif t == "Polynomial":
             s = src()
-            k = rnd.choice([0, 1, 2, 3, 4])
-            cs = [dy(rnd, -2, 2) for _ in range(k)]
+            k = rnd.choice([0, 1, 2, 3, 4, 4, 11, 12])      # two-digit coefficient indexes are a size class of their own
+            # higher coefficients shrink by 2^-8 per degree so that long polynomials stay well conditioned in binary64 (the oracle is
+            # exact; a cancelling degree-11 polynomial evaluated in doubles legitimately differs from it by far more than 1e-12)
+            cs = [dy(rnd, -2, 2) if q < 4 else dy(rnd, -1, 1, 1) / 2.0 ** (8 * (q - 3)) for q in range(k)]
             explicit = k != 4 or rnd.random() < 0.5
             if explicit:
                 props.append(P_u32(pre + "_Polynomial_Coefficients_Size", k))
@@ -205,16 +207,20 @@ def raw_values(rnd, ty, n):
     return vals, [struct.pack("<" + fmt, v) for v in vals]
 
 
-def one_channel_file(ty, chunks_vals, chan_props, group_props, root_props, nseg=1, big=False):
-    """file encoding with a root, a group and one channel; chunks_vals: list (per segment) of list of packed values"""
+def one_channel_file(ty, chunks_vals, chan_props, group_props, root_props, nseg=1, big=False, order="rgc"):
+    """file encoding with a root, a group and one channel; chunks_vals: list (per segment) of list of packed values.
+    order: "rgc" root, group, channel (what writers produce); "cgr" the channel is listed BEFORE its group and the root;
+    "late" the group and root objects only appear in the last segment (after the channel's first data)."""
     pc = path_of("g", "c")
     segs = []
     for si, vals in enumerate(chunks_vals):
         objs = []
-        if si == 0:
-            objs.append(dict(path=path_of(), idx=("N",), props=root_props))
-            objs.append(dict(path=path_of("g"), idx=("N",), props=group_props))
+        parents = [dict(path=path_of(), idx=("N",), props=root_props), dict(path=path_of("g"), idx=("N",), props=group_props)]
+        if order == "rgc" and si == 0:
+            objs += parents
         objs.append(dict(path=pc, idx=("F", ty, len(vals), 0), props=chan_props if si == 0 else []))
+        if (order == "cgr" and si == 0) or (order == "late" and si == len(chunks_vals) - 1):
+            objs += parents[::-1]
         segs.append(dict(hasMeta=True, newList=True, interleaved=False, big=big, rawFlag=True, daqmxFlag=False, lengthUnknown=False, version=4713,
                          padding=0, objs=objs, chunks=[[vals]] if vals else []))
     return segs
